@@ -20,7 +20,7 @@ MS = "jax2onnx.plugins.plugin_system"
 MC = "jax2onnx.converter.conversion_api"
 MU = "jax2onnx.user_interface"
 
-APPLIED = Seq(Tup(Ref(OBJ), Str, Ref(VAL)))
+APPLIED = Seq(Tup(Ref(OBJ), Str, Ref(VAL), Bool))
 
 
 def register(w):
@@ -90,6 +90,10 @@ def register(w):
             # restore what they change: the own entry is still there
             ex.assume(z3.Implies(z3.Select(ex.ghost["PSp"], k), z3.Select(H.D(ex), k) != H.ABSENT))
             ex.assumptions_used.add("an attribute recorded in _PATCH_STATE is still an own attribute of its target when it is released (installed by setattr; nested bodies are restoring)")
+        elif "Hk" in ex.ghost and isinstance(obj, VRef) and obj.sort == OBJ and ex.frames and ex.frames[0]["fid"].endswith(":apply_patches"):
+            # the restore loop of apply_patches only deletes keys it recorded in `applied`: installed with setattr, and nested bodies restore what they change
+            ex.assume(z3.Select(H.D(ex), H.key(obj, attr)) != H.ABSENT)
+            ex.assumptions_used.add("an attribute recorded in apply_patches' `applied` list is still an own attribute of its target when it is restored (installed by setattr; nested bodies are restoring)")
         H.b_delattr(ex, args, kw)
         return True
     w.delattr_hooks.append(b_delattr)
@@ -137,7 +141,9 @@ def register(w):
         kj = applied_key(applied, j)
         return z3.ForAll([j], z3.Implies(z3.And(0 <= j, j < upto), z3.And(
             z3.Not(refused(kj)),
-            z3.Implies(kj == k0, z3.Select(applied.arrs[2], j) == orig_of(z3.Select(hk, j), k0)),
+            z3.Implies(kj == k0, z3.And(z3.Select(applied.arrs[2], j) == orig_of(z3.Select(hk, j), k0),
+                                        # `owned` records whether the attribute was in the target's own dictionary at that moment
+                                        z3.Select(applied.arrs[3], j) == z3.And(z3.Select(hk, j) != H.ABSENT, orig_of(z3.Select(hk, j), k0) != H.MISSING))),
             z3.Implies(kj != k0, z3.Select(hk, j + 1) == z3.Select(hk, j)),
             z3.Select(hk, j) != H.MISSING,
         )))
@@ -163,7 +169,8 @@ def register(w):
         applied = lc["applied"]
         k0, hk = ex.ghost["k0"], ex.ghost["Hk"]
         n = applied.length
-        return [("resolves_as_before_step", Rk(z3.Select(ex.ghost["D"], k0), k0) == Rk(z3.Select(hk, n - m), k0))]
+        # exactly the own-dictionary entry of that moment: an attribute that was only inherited must be inherited again
+        return [("own_entry_as_at_that_step", z3.Select(ex.ghost["D"], k0) == z3.Select(hk, n - m))]
 
     def cm_body(ex, cx, value, extra):
         """the with-body: arbitrary effects, but it leaves the own-dictionary as it
@@ -178,9 +185,12 @@ def register(w):
             raise PyRaise("AnyException", "with-body raised")
 
     def post_resolution_restored(c: Ctx):
+        # the own dictionary of every object is EXACTLY as before.  "Resolves as before" is not enough: several patch
+        # contexts are active at once, and a subclass left with an own copy of what it inherited *while its parent was
+        # patched* keeps the parent's substitute after the parent is restored (D26)
         ex = c.ex
         k0 = ex.ghost["k0"]
-        return Rk(z3.Select(ex.ghost["D"], k0), k0) == Rk(z3.Select(ex.ghost["D0"], k0), k0)
+        return z3.Select(ex.ghost["D"], k0) == z3.Select(ex.ghost["D0"], k0)
 
     def post_exc_propagates(c: Ctx):
         return z3.BoolVal(not c.extra.get("body_raised"))
@@ -207,9 +217,9 @@ def register(w):
             0: LoopSpec(invariant=inv_acquire, label="acquire", ghost_update=ghost_acquire, ghost_havoc=ghost_havoc(["D", "Hk"])),
             1: LoopSpec(invariant=inv_restore, label="restore", ghost_havoc=ghost_havoc(["D"])),
         },
-        ensures=[("every_attribute_resolves_as_before", post_resolution_restored), ("body_exception_propagates", post_exc_propagates)],
-        exc_ensures=[("every_attribute_resolves_as_before", post_resolution_restored)],
-        props=["C13"], witnesses=["C13_apply_patches_restores"],
+        ensures=[("every_own_attribute_dictionary_is_as_before", post_resolution_restored), ("body_exception_propagates", post_exc_propagates)],
+        exc_ensures=[("every_own_attribute_dictionary_is_as_before", post_resolution_restored)],
+        props=["C13"], witnesses=["C13_apply_patches_restores", "D26"],
     ))
     register_monkey(w)
     register_x64(w)
